@@ -9,7 +9,6 @@ use common::{Cli, Report, Violation};
 use serde::{Deserialize, Serialize};
 use serde_json::json;
 use std::net::SocketAddr;
-use std::process::{Child, Command, Stdio};
 use std::sync::Mutex;
 use std::time::{Duration, Instant, SystemTime, UNIX_EPOCH};
 use tokio::io::AsyncWriteExt;
@@ -22,9 +21,12 @@ pub struct Conf {
     max_packet_length: u64,
     expiry: u64,
     timeout: u64,
+    /// off | v1 | v2 | v1v2
+    #[serde(default)]
+    proxy: String,
 }
 
-/// child process: `netsim C14-child <port> <max_packet_length> <expiry> <timeout>`
+/// child process: `netsim C14-child <port> <max_packet_length> <expiry> <timeout> [off|v1|v2|v1v2] [limit]`
 pub fn child(args: &[String]) {
     let port: u16 = args[0].parse().expect("port");
     let mut c = passage::config::Config::default();
@@ -33,6 +35,17 @@ pub fn child(args: &[String]) {
     c.auth_cookie_expiry = args[2].parse().expect("expiry");
     c.timeout = args[3].parse().expect("timeout");
     c.auth_secret = Some(SECRET.to_string());
+    match args.get(4).map(String::as_str) {
+        Some("v1") => c.proxy_protocol = Some(passage::config::ProxyProtocol { allow_v1: true, allow_v2: false }),
+        Some("v2") => c.proxy_protocol = Some(passage::config::ProxyProtocol { allow_v1: false, allow_v2: true }),
+        Some("v1v2") => c.proxy_protocol = Some(passage::config::ProxyProtocol { allow_v1: true, allow_v2: true }),
+        _ => {}
+    }
+    if let Some(limit) = args.get(5).and_then(|l| l.parse::<usize>().ok()) {
+        if limit > 0 {
+            c.rate_limiter = Some(passage::config::RateLimiter { duration: 3600, limit });
+        }
+    }
     c.adapters.authentication = passage::config::AuthenticationAdapter::Fixed(passage::config::FixedAuthentication {
         profile: passage_adapters::authentication::Profile { id: uuid::Uuid::from_u128(0xabcdef), name: "Fixed_Profile".into(), properties: vec![], profile_actions: vec![] },
     });
@@ -50,47 +63,12 @@ pub fn child(args: &[String]) {
     }
 }
 
-struct Server {
-    child: Child,
-    addr: SocketAddr,
+fn spawn(conf: &Conf) -> App {
+    spawn_app(conf.max_packet_length, conf.expiry, conf.timeout, &conf.proxy, 0)
 }
 
-fn spawn(conf: &Conf) -> Server {
-    let port = free_port();
-    let exe = std::env::current_exe().expect("exe");
-    let child = Command::new(exe)
-        .args(["C14-child", &port.to_string(), &conf.max_packet_length.to_string(), &conf.expiry.to_string(), &conf.timeout.to_string()])
-        .stdout(Stdio::null())
-        .stderr(Stdio::null())
-        .spawn()
-        .expect("spawn child");
-    let addr: SocketAddr = format!("127.0.0.1:{port}").parse().unwrap();
-    for _ in 0..600 {
-        if std::net::TcpStream::connect(addr).is_ok() {
-            return Server { child, addr };
-        }
-        std::thread::sleep(Duration::from_millis(10));
-    }
-    common::machinery("passage::start did not start listening within 6 s")
-}
-
-/// stops the server the way an operator does (ctrl-c) and returns its exit status
-fn stop(mut s: Server) -> Option<i32> {
-    unsafe {
-        libc::kill(s.child.id() as i32, libc::SIGINT);
-    }
-    let t0 = Instant::now();
-    loop {
-        if let Ok(Some(st)) = s.child.try_wait() {
-            return st.code();
-        }
-        if t0.elapsed() > Duration::from_secs(8) {
-            let _ = s.child.kill();
-            let _ = s.child.wait();
-            return None;
-        }
-        std::thread::sleep(Duration::from_millis(20));
-    }
+fn stop(app: App) -> Option<i32> {
+    stop_app(app)
 }
 
 fn handshake_with_length(total: usize, next: i32) -> Option<Vec<u8>> {
@@ -119,6 +97,17 @@ fn cookie(age: i64, secret: &str, client_ip: &str) -> Vec<u8> {
 
 type Viol = (String, String, serde_json::Value);
 
+/// connects and, if the configuration has PROXY protocol on, announces a source address first
+async fn connect(addr: SocketAddr, conf: &Conf) -> std::io::Result<McClient> {
+    let mut c = McClient::connect(addr, None).await?;
+    if !conf.proxy.is_empty() && conf.proxy != "off" {
+        let src: SocketAddr = "127.0.0.1:1".parse().unwrap();
+        let hdr = if conf.proxy == "v1" || conf.proxy == "v1v2" { proxy_v1(src, addr) } else { proxy_v2(src, addr) };
+        c.send_raw(&hdr).await?;
+    }
+    Ok(c)
+}
+
 async fn frame_length_cases(addr: SocketAddr, conf: &Conf, out: &Mutex<Vec<Viol>>) -> u64 {
     let max = conf.max_packet_length as usize;
     let mut n = 0;
@@ -128,7 +117,7 @@ async fn frame_length_cases(addr: SocketAddr, conf: &Conf, out: &Mutex<Vec<Viol>
             continue;
         }
         n += 1;
-        let Ok(mut c) = McClient::connect(addr, None).await else {
+        let Ok(mut c) = connect(addr, conf).await else {
             out.lock().unwrap().push(("connect-refused".into(), "the server did not accept a connection".into(), json!({"conf": conf, "case": "frame-length"})));
             continue;
         };
@@ -143,6 +132,26 @@ async fn frame_length_cases(addr: SocketAddr, conf: &Conf, out: &Mutex<Vec<Viol>
                 format!("max_packet_length = {max}: a handshake frame of declared length {len} was {} ({r:?})", if served { "served" } else { "not served" }),
                 json!({"conf": conf, "case": "frame-length", "len": len}),
             ));
+        }
+    }
+    // length prefixes that never terminate (all five bytes carry the continuation bit): whatever they
+    // announce is far beyond any configured maximum, so they must be refused at once as well
+    if conf.timeout >= 3 {
+        for prefix in [[0xffu8; 5], [0x80, 0x80, 0x80, 0x80, 0x81]] {
+            n += 1;
+            let Ok(mut c) = connect(addr, conf).await else { continue };
+            let t0 = Instant::now();
+            let mut junk = prefix.to_vec();
+            junk.extend(std::iter::repeat_n(0x41u8, 70_000));
+            let _ = c.send(&junk).await;
+            let closed = c.wait_closed(Duration::from_millis(1500)).await.is_ok();
+            if !closed {
+                out.lock().unwrap().push((
+                    "unterminated-length-prefix-not-refused".into(),
+                    format!("max_packet_length = {max}: after a length prefix {prefix:02x?} and 70 000 further bytes the server was still reading {:?} later", t0.elapsed()),
+                    json!({"conf": conf, "case": "unterminated-prefix"}),
+                ));
+            }
         }
     }
     n
@@ -160,7 +169,7 @@ async fn cookie_cases(addr: SocketAddr, conf: &Conf, out: &Mutex<Vec<Viol>>) -> 
             continue;
         }
         n += 1;
-        let Ok(mut c) = McClient::connect(addr, None).await else {
+        let Ok(mut c) = connect(addr, conf).await else {
             out.lock().unwrap().push(("connect-refused".into(), "the server did not accept a connection".into(), json!({"conf": conf, "case": "cookie"})));
             continue;
         };
@@ -182,7 +191,9 @@ async fn cookie_cases(addr: SocketAddr, conf: &Conf, out: &Mutex<Vec<Viol>>) -> 
 
 async fn deadline_case(addr: SocketAddr, conf: &Conf, behaviour: &str, out: &Mutex<Vec<Viol>>) {
     let timeout = Duration::from_secs(conf.timeout);
-    let Ok(mut c) = McClient::connect(addr, None).await else {
+    let late_header = behaviour.starts_with("late-proxy-header");
+    let connected = if late_header { McClient::connect(addr, None).await } else { connect(addr, conf).await };
+    let Ok(mut c) = connected else {
         out.lock().unwrap().push(("connect-refused".into(), "the server did not accept a connection".into(), json!({"conf": conf, "case": "deadline"})));
         return;
     };
@@ -191,6 +202,16 @@ async fn deadline_case(addr: SocketAddr, conf: &Conf, behaviour: &str, out: &Mut
     let mut o = LoginOutcome { packets: vec![], stage: Stage::Connected, error: None };
     match behaviour {
         "silent" => {}
+        "late-proxy-header-then-silent" | "late-proxy-header-then-handshake" => {
+            // a valid header, but only after three quarters of the deadline have passed
+            tokio::time::sleep(timeout * 3 / 4).await;
+            let src: SocketAddr = "127.0.0.1:1".parse().unwrap();
+            let hdr = if conf.proxy == "v2" { proxy_v2(src, addr) } else { proxy_v1(src, addr) };
+            let _ = c.send_raw(&hdr).await;
+            if behaviour.ends_with("handshake") {
+                let _ = c.send(&codec::sb_handshake(769, "late.example", 25565, 2)).await;
+            }
+        }
         "one-byte-every-100ms" => {
             // a long handshake dribbled in byte by byte, far beyond the deadline
             let f = codec::sb_handshake(769, &"d".repeat(200), 25565, 2);
@@ -287,20 +308,23 @@ pub fn run(cli: Cli) -> ! {
         vec![serde_json::from_value(case["conf"].clone()).unwrap_or_else(|e| common::machinery(&format!("bad replay: {e}")))]
     } else if thorough {
         vec![
-            Conf { max_packet_length: 7, expiry: 60, timeout: 1 },
-            Conf { max_packet_length: 64, expiry: 1, timeout: 2 },
-            Conf { max_packet_length: 300, expiry: 60, timeout: 2 },
-            Conf { max_packet_length: 1_000, expiry: 60, timeout: 2 },
-            Conf { max_packet_length: 2_000, expiry: 1, timeout: 1 },
-            Conf { max_packet_length: 10_000, expiry: 3, timeout: 3 },
-            Conf { max_packet_length: 1_000, expiry: 21_600, timeout: 18 },
+            Conf { max_packet_length: 7, expiry: 60, timeout: 1, proxy: String::new() },
+            Conf { max_packet_length: 64, expiry: 1, timeout: 2, proxy: String::new() },
+            Conf { max_packet_length: 300, expiry: 60, timeout: 2, proxy: String::new() },
+            Conf { max_packet_length: 1_000, expiry: 60, timeout: 2, proxy: String::new() },
+            Conf { max_packet_length: 2_000, expiry: 1, timeout: 1, proxy: String::new() },
+            Conf { max_packet_length: 10_000, expiry: 3, timeout: 3, proxy: String::new() },
+            Conf { max_packet_length: 1_000, expiry: 21_600, timeout: 18, proxy: String::new() },
+            Conf { max_packet_length: 1_000, expiry: 60, timeout: 4, proxy: "v1v2".into() },
+            Conf { max_packet_length: 1_000, expiry: 60, timeout: 3, proxy: "v2".into() },
         ]
     } else {
         vec![
-            Conf { max_packet_length: 7, expiry: 60, timeout: 1 },
-            Conf { max_packet_length: 64, expiry: 60, timeout: 2 },
-            Conf { max_packet_length: 1_000, expiry: 60, timeout: 2 },
-            Conf { max_packet_length: 2_000, expiry: 1, timeout: 1 },
+            Conf { max_packet_length: 7, expiry: 60, timeout: 1, proxy: String::new() },
+            Conf { max_packet_length: 64, expiry: 60, timeout: 2, proxy: String::new() },
+            Conf { max_packet_length: 1_000, expiry: 60, timeout: 2, proxy: String::new() },
+            Conf { max_packet_length: 2_000, expiry: 1, timeout: 1, proxy: String::new() },
+            Conf { max_packet_length: 1_000, expiry: 60, timeout: 4, proxy: "v1v2".into() },
         ]
     };
     let total = std::sync::atomic::AtomicU64::new(0);
@@ -312,7 +336,11 @@ pub fn run(cli: Cli) -> ! {
             s.spawn(move || {
                 // with a tiny max_packet_length a login cannot get past the handshake: only the
                 // behaviours that do not need one are meaningful
-                let bh: Vec<&str> = if conf.max_packet_length < 1000 { all[..4].to_vec() } else { all.to_vec() };
+                let mut bh: Vec<&str> = if conf.max_packet_length < 1000 { all[..4].to_vec() } else { all.to_vec() };
+                if !conf.proxy.is_empty() && conf.proxy != "off" {
+                    bh.push("late-proxy-header-then-silent");
+                    bh.push("late-proxy-header-then-handshake");
+                }
                 let n = run_conf(conf, &bh, rep);
                 total.fetch_add(n, std::sync::atomic::Ordering::Relaxed);
             });
@@ -324,7 +352,7 @@ pub fn run(cli: Cli) -> ! {
     rep.set("distinct_nontrivial", json!(n));
     rep.set("configurations", json!(confs.len()));
     rep.set("exhaustive", json!(true));
-    rep.set("rule", json!("one child process running passage::start(config) per configuration (max_packet_length, auth_cookie_expiry, timeout); per configuration: handshake frames of declared length max-1, max, max+1, max+50; cookies aged expiry-2 / expiry+2 / very old / signed with another secret; client behaviours silent, one byte every 100 ms, stopping mid-frame and after each protocol step, each required to be disconnected by timeout + 1.5 s; the process is stopped with SIGINT and must exit cleanly. Each connection is a distinct case."));
+    rep.set("rule", json!("one child process running passage::start(config) per configuration (max_packet_length, auth_cookie_expiry, timeout); per configuration: handshake frames of declared length max-1, max, max+1, max+50; cookies aged expiry-2 / expiry+2 / very old / signed with another secret; client behaviours silent, one byte every 100 ms, stopping mid-frame and after each protocol step, and (with PROXY protocol configured) a valid header sent only after 3/4 of the timeout, each required to be disconnected by timeout + 1.5 s; the process is stopped with SIGINT and must exit cleanly. Each connection is a distinct case."));
     rep.sample(json!({"conf": confs[0], "case": "frame-length", "len": confs[0].max_packet_length + 1, "expect": "closed unanswered"}));
     rep.sample(json!({"conf": confs[confs.len() - 1], "case": "deadline", "behaviour": "stop-after-encryption-request", "expect": "closed by timeout + 1.5 s"}));
     rep.assume("real time: 'closed too late' uses a 1.5 s allowance; closing earlier is never a violation");
